@@ -329,3 +329,27 @@ func (l *Loop) elemTypeName() string {
 	}
 	return e.String()
 }
+
+// EarlyExitsAny: exits from the loop body other than through the header, of
+// any kind (break, return of any value). For loops in functions without an
+// error result.
+func (l *Loop) EarlyExitsAny(p *Program) []string {
+	var out []string
+	for b := range l.Blocks {
+		if b == l.Header {
+			continue
+		}
+		for _, s := range b.Succs {
+			if !l.Blocks[s] {
+				out = append(out, fmt.Sprintf("exit from loop body at %s", p.Pos(lastPos(b))))
+			}
+		}
+		for _, ins := range b.Instrs {
+			if r, ok := ins.(*ssa.Return); ok {
+				out = append(out, fmt.Sprintf("return inside loop body at %s", p.Pos(r.Pos())))
+			}
+		}
+	}
+	sort.Strings(out)
+	return out
+}
